@@ -180,8 +180,6 @@ func (fs *Filespace) Writer(destPath string) (writer filesystem.Writer, err erro
 		destNodeName string
 		dir          *Dir
 		file         *File
-		node         os.FileInfo
-		ok           bool
 	)
 	if destPath, err = varutil.ReduceAbsPath(destPath); err != nil {
 		return nil, err
@@ -192,23 +190,34 @@ func (fs *Filespace) Writer(destPath string) (writer filesystem.Writer, err erro
 	if dir, err = mkdirAllNodes(fs.root, destDirPath, filesystem.DefaultUnixDirMode); err != nil {
 		return nil, err
 	}
-	dir.Lock()
-	defer dir.Unlock()
-	if node, err = dir.getNode(destNodeName); err != nil {
-		file = NewFile(destNodeName, filesystem.DefaultUnixFileMode, time.Now(), []byte{})
-		if err = dir.addNode(file); err != nil {
-			return nil, err
-		}
-	} else {
-		if file, ok = node.(*File); !ok {
-			return nil, goaterr.Errorf("Node %s must be a file", destPath)
-		}
+	if file, err = fs.writerFile(dir, destPath, destNodeName); err != nil {
+		return nil, err
 	}
+	// the file's data lock is taken after the directory lock has been released: a
+	// goroutine that holds an open handle must not block writers of sibling files
 	handler := NewFileHandler(file)
 	// a writer replaces the old content (the handler holds the data lock)
 	file.time = time.Now()
 	file.data = []byte{}
 	return handler, nil
+}
+
+// writerFile finds or creates the file node for a writer under the directory lock
+func (fs *Filespace) writerFile(dir *Dir, destPath, destNodeName string) (file *File, err error) {
+	var (
+		node os.FileInfo
+		ok   bool
+	)
+	dir.Lock()
+	defer dir.Unlock()
+	if node, err = dir.getNode(destNodeName); err != nil {
+		file = NewFile(destNodeName, filesystem.DefaultUnixFileMode, time.Now(), []byte{})
+		return file, dir.addNode(file)
+	}
+	if file, ok = node.(*File); !ok {
+		return nil, goaterr.Errorf("Node %s must be a file", destPath)
+	}
+	return file, nil
 }
 
 // Reader return a file node reader
